@@ -1,0 +1,24 @@
+//go:build verif
+
+// Machine-checked contracts for this package (comment-only; compiled only under the
+// build tag `verif`, where it still contains no code). Checked by /verif/govc.
+package keeper
+
+// ---- frames of the queries other modules call (checked against the call-graph inference) -----
+//@ func (Keeper).GetAssetPrice
+//@ modifies nothing
+//@ frame-only
+
+//@ func (Keeper).GetMTPsForAddressWithPagination
+//@ modifies module:amm
+//@ frame-only
+
+//@ func (Keeper).HandleOpenEstimation
+//@ modifies module:amm
+//@ frame-only
+
+// Opening a position is not looked into from the callers in other modules: any state change is
+// allowed for (weakest contract, nothing assumed).
+//@ func (Keeper).Open
+//@ modifies world
+//@ havoc-only
